@@ -22,6 +22,10 @@ def run(chk):
                    "thresholds interacting with the global one, open/close cycles) + all histories up to the stated length "
                    "over a 24-symbol alphabet; non-trivial = the breaker opened at least once; distinct by (config, history)")
     chk.coverage.update(cov)
+    if ok:
+        import source_tie
+        source_tie.report(chk, source_tie.circuit_tie(chk), "circuit",
+                          f"{cov.get('evaluations')} breaker histories (random and exhaustive small scope): no property violation found")
 
 
 def replay(path):
